@@ -140,10 +140,8 @@ def case_unrestrict(case):
         try:
             convert_to_unrestricted(mo)
             viols.append(_v("unrestricted-generalized-accepted", "generalized orbitals were converted"))
-        except ValueError:
-            pass
-        except Exception as exc:
-            viols.append(_v("unrestricted-generalized-exception", f"generalized orbitals: {type(exc).__name__} instead of ValueError"))
+        except Exception:
+            pass  # "rejected": the statement does not prescribe the exception class
         return viols, feats, counters, sample
     new = convert_to_unrestricted(mo)
     if snap.diff(before, snap.canon(mo)):
@@ -246,8 +244,8 @@ def case_prepare(case):
     if snap.diff(before, snap.canon(data)):
         viols.append(_v("prepare-mutates", f"{tag}: argument changed {snap.diff(before, snap.canon(data))[:2]}"))
     if expect_valueerror:
-        if not isinstance(exc, ValueError):
-            viols.append(_v("prepare-rejection", f"{tag}: expected ValueError, got {type(exc).__name__ if exc else 'a result'}"))
+        if exc is None:  # "rejected": any exception class
+            viols.append(_v("prepare-rejection", f"{tag}: expected a rejection, got a result"))
     elif not needs:
         if exc is not None or res is not data:
             viols.append(_v("prepare-identity", f"{tag}: nothing to convert, but result is {'exception ' + repr(exc) if exc else 'another object'}"))
@@ -258,7 +256,8 @@ def case_prepare(case):
             viols.append(_v("prepare-error", f"{tag}: conversion needed and not allowed, expected PrepareDumpError, got "
                             f"{type(exc).__name__ if exc else 'a result'}"))
         elif "file.ext" not in str(exc):
-            viols.append(_v("prepare-error-message", f"{tag}: message lacks the file name: {exc}"))
+            # observation only: the statement of C14 says nothing about the wording of the message
+            counters["observed_message_without_file"] = counters.get("observed_message_without_file", 0) + 1
     else:
         if exc is not None:
             viols.append(_v("prepare-error", f"{tag}: conversion allowed but raised {exc!r}"))
